@@ -64,7 +64,11 @@ func e1Config(g *core.Stream, variant int) string {
 	fmt.Fprintf(&b, "SessionExpiration = %q\n", exp)
 	fmt.Fprintf(&b, "PostMessageCooloff = \"0s\"\n")
 	if variant != 1 {
-		fmt.Fprintf(&b, "CaptchaURL = \"http://captcha.example/\"\nCaptchaHMACSecret = %q\n", e1HMACHex)
+		secret := e1HMACHex
+		if g.Chance(1, 10) {
+			secret = "" // set but empty
+		}
+		fmt.Fprintf(&b, "CaptchaURL = \"http://captcha.example/\"\nCaptchaHMACSecret = %q\n", secret)
 	}
 	if g.Chance(1, 8) {
 		fmt.Fprintf(&b, "CaptchaRequiredForLogin = true\n")
@@ -164,6 +168,10 @@ func clientLine(g *core.Stream) (line string, captcha string) {
 	case r < 6:
 		return "NICK " + pickNick(g), ""
 	case r < 8:
+		if g.Chance(1, 8) {
+			// as long as a line can be (the user name is part of every prefix the session is relayed under)
+			return "USER " + strings.Repeat(g.Pick([]string{"u", "é", "~"}), g.Pick2(64, 200, 470, 490, 600)) + " 0 * :" + g.Pick([]string{"Real Name", strings.Repeat("r", 400)}), ""
+		}
 		return "USER " + g.Pick([]string{"u", "root", "~x", ""}) + " 0 * :" + g.Pick([]string{"Real Name", "", "x"}), ""
 	case r < 22:
 		l := "JOIN " + pickChanList(g)
@@ -203,6 +211,10 @@ func clientLine(g *core.Stream) (line string, captcha string) {
 		case 3:
 			return "MODE " + ch() + " " + g.Pick([]string{"+k", "-k", "+k"}) + " " + g.Pick(e1Keys), ""
 		case 4, 5:
+			if g.Chance(1, 6) {
+				// mode letters outside ASCII; some have CR, LF or NUL as their low byte (U+010D, U+010A, U+0100)
+				return "MODE " + g.Pick([]string{ch(), "{nicka}"}) + " " + g.Pick([]string{"+", "-", "+i", "-t"}) + g.Pick([]string{"\u010a", "\u010d", "\u0100", "\u200a", "\u00e9", "\u010aPING", "\u010dQUIT", "\U0001000a"}) + g.Pick([]string{"", "x", " arg"}), ""
+			}
 			return "MODE " + ch() + " " + g.Pick([]string{"+i", "-i", "+t", "-t", "+n", "-n", "+s", "-s", "+x", "-x", "+it", "-nt", "+z", "+é", "+", "-"}), ""
 		case 6, 7:
 			return "MODE " + ch() + " " + g.Pick([]string{"+b", "-b", "+b", "b"}) + g.Pick([]string{"", " " + pickMask(g)}), ""
@@ -280,7 +292,7 @@ func servicesLine(g *core.Stream) string {
 		if g.Chance(1, 6) {
 			n = pickNick(g)
 		}
-		return fmt.Sprintf("NICK %s 1 1422134861 services localhost.net services.localhost.net 0 :%s Server", n, n)
+		return fmt.Sprintf("NICK %s 1 %s services localhost.net services.localhost.net 0 :%s Server", n, g.Pick([]string{"1422134861", "1422134861", "1422134861", "0", "1", "-1", "x", "99999999999"}), n)
 	case r < 30:
 		return ":" + sn() + " JOIN " + pickChanList(g)
 	case r < 36:
@@ -339,6 +351,12 @@ func mintCaptcha(kind string, auth string, lastActivityNano int64, cmd, arg stri
 	switch kind {
 	case "old":
 		purpose = fmt.Sprintf("okay:%s:%d:%s", cmd, lastActivityNano-int64(6*60*1e9), arg)
+	case "old5":
+		purpose = fmt.Sprintf("okay:%s:%d:%s", cmd, lastActivityNano-int64(5*60*1e9)-int64(2e9), arg) // just expired
+	case "ancient":
+		purpose = fmt.Sprintf("okay:%s:%d:%s", cmd, lastActivityNano-int64(24*3600*1e9), arg)
+	case "edge":
+		purpose = fmt.Sprintf("okay:%s:%d:%s", cmd, lastActivityNano-int64(4*60*1e9), arg) // still valid
 	case "wrongpurpose":
 		purpose = fmt.Sprintf("%s:%d:%s", cmd, lastActivityNano, arg) // the un-solved challenge itself (replay of the URL fragment)
 	}
@@ -502,6 +520,23 @@ func (e1Engine) Generate(seed uint64, prop, tier string) (json.RawMessage, error
 		add(e1Step{K: "line", S: ls, Data: "JOIN " + c, Addr: addr})
 		add(e1Step{K: "line", S: ls, Data: "PRIVMSG " + c + " :am I banned?", Addr: addr})
 	}
+	// snippet: a captcha-protected channel and somebody at its gate with a fresh, expired, mutated or replayed token
+	captchaGate := func() {
+		if nsess < 2 {
+			return
+		}
+		a, b := g.Intn(nsess), g.Intn(nsess)
+		if a == b || a == svc || b == svc {
+			return
+		}
+		c := "#gate" + fmt.Sprint(g.Intn(2))
+		add(e1Step{K: "line", S: a, Data: "JOIN " + c})
+		add(e1Step{K: "line", S: a, Data: "MODE " + c + " +x"})
+		for k := 0; k < g.Range(1, 3); k++ {
+			add(e1Step{K: "line", S: b, Data: "JOIN " + c + " {captcha}", Captcha: g.Pick([]string{"ok", "edge", "old", "old5", "ancient", "mut", "wrongpurpose"})})
+		}
+		add(e1Step{K: "line", S: b, Data: "PRIVMSG " + c + " :am I in?"})
+	}
 	// snippet: several members on one channel, a membership-changing event, then channel and private traffic
 	chatter := func() {
 		if nsess < 3 {
@@ -551,6 +586,8 @@ func (e1Engine) Generate(seed uint64, prop, tier string) (json.RawMessage, error
 			staleInvite()
 		case r >= 555 && r < 563:
 			sessionBan()
+		case r >= 563 && r < 571:
+			captchaGate()
 		case r >= 500 && r < 540:
 			chatter()
 		case r >= 540 && r < 555:
